@@ -6,7 +6,8 @@
                        variable lengths specialised per length, ASCII spellings), compact(format(v))
                        is v position by position.  With C03 this gives validate(format(x)) == validate(x).
  C04.total             no partial operation of format() can fail on an accepted number."""
-from ..common import Report, rel
+import ast
+from ..common import Report, rel, src as src_
 from .. import scope
 from ..rawflow import raw_uses, flatten, compact_nf, nf_equiv, statement_nf
 
@@ -53,13 +54,46 @@ def check(tier):
                     continue
                 elif u.kind == 'clean' and not chain and nf_equiv(own, statement_nf(prog, fmod, ffn, u.stmt)):
                     rep.ok('C04.consumes-compact', '%s:%d format' % (file, u.stmt.lineno), 'inline clean() chain with the normal form of compact()')
-                elif mn in scope.C04_FLOW_UNDECIDED:
+                elif mn in scope.C04_FLOW_UNDECIDED and (mn != 'stdnum.th.tin' or (isinstance(u.stmt, ast.Return) and isinstance(u.stmt.value, ast.Name))):
                     rep.undecide('C04.consumes-compact', '%s:%d' % (file, u.stmt.lineno), scope.C04_FLOW_UNDECIDED[mn])
                 else:
                     from ..common import src
                     rep.fail('C04.consumes-compact', file, 'format' + ((' -> ' + where) if where else ''), src(u.stmt).split(' : ')[0][:140], u.stmt.lineno,
                              'format() reads its raw argument (%s) without compact(): the formatted text depends on how the number was written'
                              % (u.detail or u.kind))
+        # --- validate() must not normalise beyond compact(): format(x) consumes compact(x), the round trip is proven on validate(x)
+        rv = prog.resolve_name(m, 'validate')
+        if rv and rv[0] == 'func' and mn not in scope.C04_UNDECIDED and own is not None:
+            vfn = prog.mods[rv[1]].funcs[rv[2]]
+            vp = vfn.args.args[0].arg if vfn.args.args else None
+            opts = {a.arg for a in vfn.args.args[1:]}
+            par = {}
+            for x in ast.walk(vfn):
+                for c in ast.iter_child_nodes(x):
+                    par[c] = x
+            compacted = False
+            for st in [x for x in ast.walk(vfn) if isinstance(x, ast.Assign)]:
+                if not (len(st.targets) == 1 and isinstance(st.targets[0], ast.Name) and st.targets[0].id == vp):
+                    continue
+                v = st.value
+                if isinstance(v, ast.Call) and not (isinstance(v.func, ast.Attribute) and isinstance(v.func.value, ast.Name) and v.func.value.id == vp):
+                    compacted = compacted or 'compact' in src_(v.func) or 'clean' in src_(v.func)
+                    continue            # compact(...), another module's validate(...): results in compact form
+                reads_self = any(isinstance(x, ast.Name) and x.id == vp for x in ast.walk(v))
+                under_option = False
+                q = st
+                while q in par:
+                    q = par[q]
+                    if isinstance(q, ast.If) and any(isinstance(x, ast.Name) and x.id in opts for x in ast.walk(q.test)):
+                        under_option = True
+                # idempotent repetition of something compact() already did (number = number.upper() after an upper-casing compact)
+                redundant = isinstance(v, ast.Call) and isinstance(v.func, ast.Attribute) and not v.args and isinstance(v.func.value, ast.Name) \
+                    and v.func.attr in ('strip', 'upper', 'lower') and isinstance(own, tuple) and len(own) > 2 and v.func.attr in own[2]
+                if reads_self and compacted and not under_option and not redundant:
+                    rep.fail('C04.validate-normal-form', rel(prog.mods[rv[1]].path), 'validate', src_(st)[:120], st.lineno,
+                             'validate() rewrites the compact form once more (%s) before checking and returning it, but format() starts from compact(x): for an input '
+                             'written in the form that only validate() understands, format(x) is built from characters validate(x) does not contain' % src_(v)[:60])
+            rep.ok('C04.validate-normal-form', '%s validate' % file, 'the value validate() checks is compact(x) itself') if compacted else None
         rec = r['functions'].get('format')
         if rec is None:
             rep.undecide('C04.roundtrip', file, 'format() has more than one required parameter or was not analysed')
@@ -69,7 +103,8 @@ def check(tier):
             if a.get('reg'):
                 continue
             key = '%s|%s|%s' % (a['module'], a['func'], a['construct'])
-            if mn in scope.C04_UNDECIDED and mn != 'stdnum.pt.cc':
+            structural = a['kind'] == 'AttributeError' and a['why'].startswith('module ') and ' has no ' in a['why']
+            if mn in scope.C04_UNDECIDED and mn != 'stdnum.pt.cc' and not structural:
                 rep.undecide('C04.total', '%s:%d' % (a['file'], a['line']), scope.C04_UNDECIDED[mn])
                 continue
             rep.fail('C04.total:%s' % a['kind'], a['file'], a['func'], a['construct'], a['line'],
